@@ -1,6 +1,148 @@
-(* Properties/C02.v — statements only. *)
-From XV Require Import Base.Str Spec.Cm Spec.XsdVal Spec.XsdCm Proofs.Cm.
+(* Properties/C02.v — C02: generated classes are faithful to the XML Schema they came from.
+   Statements only; every proof is `exact <lemma>` followed by Print Assumptions.
 
+   Level: translation validation.  The generator pipeline (parsers, mappers, ~25 handlers, Filters, templates)
+   is NOT modelled; for every generated program the harness feeds the binding metadata the real XmlContext
+   built and the schema as read by an independent reader to the validator whose soundness is proved here.
+
+   Spec side: Spec/Cm.v (content models, language, slot assignment), Spec/XsdCm.v (namespace-constrained
+   wildcards, the encoding, schemas, typed infosets), Spec/XsdVal.v (simple types and value equality).
+   What is proved, what is only validated per program, what is missing: design.d/C02.md. *)
+From Coq Require Import NArith ZArith List Bool Arith Permutation.
+From XV Require Import Base.Str Base.Eqb Spec.Cm Spec.XsdVal Spec.XsdCm Spec.XsdPrims
+  Model.ConvBool Model.ConvFactory Model.XsdCorr
+  Proofs.Cm Proofs.XsdCm Proofs.XsdTypes Proofs.XsdTree Proofs.XsdExamples.
+Import ListNotations.
+
+(* ======================= every valid children word is accepted ======================= *)
+(* the validator accepts (c, m)  ==>  every word of the content model is bound by the greedy slot assignment of
+   ElementNode.child over m's fields (namespace-constrained wildcards included) and fills every required field *)
+Theorem C02_children_accepted : forall c m w,
+  xcheck_children c m = true -> xlang c w -> xaccepts_word m w = true.
+Proof. exact xcheck_sound. Qed.
+Print Assumptions C02_children_accepted.
+
+(* capacity form: no kind of child occurs more often than the fields for it can hold *)
+Theorem C02_capacity : forall c m,
+  xcheck_children c m = true ->
+  forall w, xlang c w ->
+    let K := known_names c m in let NSS := known_nss c m in
+    (forall q, ele (count q (map (abs_name K NSS) w)) (capacity (xenc_meta c m) q))
+    /\ xaccepts_word m w = true.
+Proof. exact xaccepts_all_sound. Qed.
+Print Assumptions C02_capacity.
+
+(* the reused word-level theorems of the shared validator *)
 Theorem C02_count_le_maxcount : forall q c w, lang c w -> ele (count q w) (maxcount c q).
 Proof. exact count_le_maxcount. Qed.
 Print Assumptions C02_count_le_maxcount.
+
+(* ======================= lossless (level of the abstract metadata) ======================= *)
+(* accepted, and what the serializer emits (fields by rank, items of a field in arrival order) is a
+   permutation of the children that were parsed: nothing lost, nothing invented *)
+Theorem C02_lossless : forall c m w,
+  xcheck_children c m = true -> xlang c w ->
+  xaccepts_word m w = true /\ Permutation w (emit_order (xrank_of (xm_fields m)) w).
+Proof. exact xlossless. Qed.
+Print Assumptions C02_lossless.
+
+(* attributes: a declared attribute, present or absent, comes back with the value an XSD-aware reader sees
+   (defaults and fixed values materialise), values compared canonically per simple type *)
+Theorem C02_attributes : forall d k,
+  attrs_check d k = true ->
+  forall x, In x (td_attrs d) -> forall present, valid_attr (attr_decl_canon x) present = true ->
+    exists f, afield_roundtrip f present = Some (effective (attr_decl_canon x) present).
+Proof. exact xattrs_sound. Qed.
+Print Assumptions C02_attributes.
+
+(* ======================= order ======================= *)
+(* under the decidable side condition the serializer's order IS the document order *)
+Theorem C02_order_preserved : forall c m w,
+  xorder_safe c m = true -> xlang c w -> emit_order (xrank_of (xm_fields m)) w = w.
+Proof. exact xorder_preserved. Qed.
+Print Assumptions C02_order_preserved.
+
+(* ======================= not retyped ======================= *)
+(* a compatible field has ONE candidate type, the one the schema type is bound to: converter priority
+   (sort_types) has nothing to choose, whatever the converter *)
+Theorem C02_not_retyped_first_type : forall (V : Type) (conv : pytype -> str -> option V) b ws f py fmt s v,
+  type_compat (STAtom b None ws) f = true -> expected_py b = Some (py, fmt) ->
+  conv (TName py) s = Some v ->
+  deserialize_gen conv s (sort_types (map TName (ft_types f))) = Some (TName py, v).
+Proof. exact @type_compat_first_type. Qed.
+Print Assumptions C02_not_retyped_first_type.
+
+(* ... and under `conv_faithful` (what C05 must provide for the builtin: every lexical form is accepted by the
+   bound Python type and written back XSD-equal) every lexical form survives the round trip as the same value.
+   PARTIAL: conv_faithful is an explicit hypothesis; it is discharged from C05's theorems below for xs:boolean
+   and xs:string only; integers, decimal, float/double, dates, binary types are NOT discharged here. *)
+Theorem C02_not_retyped_atomic_partial :
+  forall (V : Type) (conv : pytype -> str -> option V) (ser : V -> option str -> option str) b ws f py fmt,
+  type_compat (STAtom b None ws) f = true -> expected_py b = Some (py, fmt) ->
+  conv_faithful conv ser b ws py fmt ->
+  forall s, value_valid (STAtom b None ws) s = true ->
+    exists v out, deserialize_gen conv s (sort_types (map TName (ft_types f))) = Some (TName py, v)
+                  /\ ser v (ft_format f) = Some out /\ value_eqb (STAtom b None ws) s out = true.
+Proof. exact @not_retyped_atomic. Qed.
+Print Assumptions C02_not_retyped_atomic_partial.
+
+Theorem C02_not_retyped_boolean : forall core c a b,
+  canon_builtin B_boolean core = Some c -> forallb xml_ws a = true -> forallb xml_ws b = true ->
+  exists v, bool_deser (a ++ core ++ b) = Some v /\ canon_builtin B_boolean (bool_ser v) = Some c.
+Proof. exact not_retyped_boolean. Qed.
+Print Assumptions C02_not_retyped_boolean.
+
+Theorem C02_not_retyped_string : forall s,
+  exists v, string_deser s = Some v /\ value_eqb (STAtom B_string None WsPreserve) s (string_ser v) = true.
+Proof. exact not_retyped_string. Qed.
+Print Assumptions C02_not_retyped_string.
+
+(* ======================= output-only options ======================= *)
+(* metadata of two option sets that is equal up to what output-only options change (collection factories and
+   class nesting are not part of the abstract at all) accepts the same words *)
+Theorem C02_options_irrelevant : forall m m',
+  meta_equiv m m' = true -> forall w, xaccepts_word m w = xaccepts_word m' w.
+Proof. exact options_irrelevant. Qed.
+Print Assumptions C02_options_irrelevant.
+
+(* ======================= from checked pairs to documents ======================= *)
+(* the pairing of schema types with classes is proposed by the harness and CHECKED (pair_flags): if every pair
+   passes the word-level validator and is closed, every schema-valid element tree rooted at a paired type is
+   accepted at every node *)
+Theorem C02_tree_accepted : forall p,
+  pairs_checked p ->
+  forall tr, tvalid (p_schema p) tr -> forall c, pair_mem p (st_type tr) c = true -> baccepts p c tr.
+Proof. exact tree_accepted. Qed.
+Print Assumptions C02_tree_accepted.
+
+(* ======================= non-vacuity ======================= *)
+Example C02_example_accepts :
+  xcheck_children ex_cm ex_meta = true /\ xlang ex_cm [nA; nA; nB; nW] /\ xaccepts_word ex_meta [nA; nA; nB; nW] = true.
+Proof. exact (conj ex_check (conj ex_word_valid ex_word_accepted)). Qed.
+Print Assumptions C02_example_accepts.
+
+Example C02_example_rejects :
+  xcheck_children ex_cm ex_meta_small = false /\ xrejected_word ex_cm ex_meta_small = Some [nA; nA; nA].
+Proof. exact ex_rejects. Qed.
+Print Assumptions C02_example_rejects.
+
+Example C02_example_order :
+  xorder_safe ex_choice ex_compound = true /\ xorder_safe ex_choice ex_plain = false
+  /\ xorder_claimed ex_choice = true
+  /\ emit_order (xrank_of (xm_fields ex_plain)) [nB; nA] = [nA; nB].
+Proof. exact ex_order. Qed.
+Print Assumptions C02_example_order.
+
+Example C02_example_type_compat :
+  type_compat (STAtom B_int None WsCollapse) (mk_ftype [py_int] None false None) = true
+  /\ type_compat (STAtom B_int None WsCollapse) (mk_ftype [py_str] None false None) = false
+  /\ type_compat (STAtom B_int None WsCollapse) (mk_ftype [py_int; py_str] None false None) = false
+  /\ type_compat (STAtom B_hexBinary None WsCollapse) (mk_ftype [py_bytes] None false None) = false
+  /\ type_compat (STAtom B_hexBinary None WsCollapse) (mk_ftype [py_bytes] (Some fmt_base16) false None) = true.
+Proof. exact ex_type_compat. Qed.
+Print Assumptions C02_example_type_compat.
+
+Example C02_example_meta_equiv :
+  meta_equiv ex_meta ex_meta = true /\ meta_equiv ex_meta ex_meta_small = false.
+Proof. exact ex_meta_equiv. Qed.
+Print Assumptions C02_example_meta_equiv.
